@@ -406,6 +406,30 @@ theorem passed_then_held (r : Repo) (h : Hdr) (ok : Bool) (hs : StreamWF r) (hlv
       rw [addToBranch_arena]
       refine heldAt_set r.arena pb (r.br pb) _ { hdr := h, work := lst.work + w } hbr ?_ ?_ pb h.prev ph hown <;> rfl
 
+/-! ### what is held stays held -/
+
+theorem heldAt_processHeader (r : Repo) (h : Hdr) (ok : Bool)
+    (hnc : ∀ pb ph lst, precheck r h ok = .inr (pb, ph, lst) →
+      Int.tmod ((r.br pb).height + 1) (Facts.autoCleanModulus : Int) ≠ 0)
+    (bj id : Nat) (x : Int) (hh : HeldAt r.arena bj id x) : HeldAt (processHeader r h ok).1.arena bj id x := by
+  cases processHeader_shape r h ok hnc with
+  | same ha hb _ => rw [ha]; exact hh
+  | fork pb ph lst nb hp hne hn ha hb _ => rw [ha]; exact heldAt_append r.arena nb bj id x hh
+  | extend pb ph lst w hp hprev hlen hbw ha hb _ =>
+    rw [ha]
+    have hbr : r.arena[pb]? = some (r.br pb) := by
+      unfold Repo.br; rw [List.getElem?_eq_getElem hlen]; rfl
+    refine heldAt_set r.arena pb (r.br pb) _ { hdr := h, work := lst.work + w } hbr ?_ ?_ bj id x hh <;> rfl
+
+theorem heldAt_submitAll (r : Repo) (hs : List (Hdr × Bool)) (hq : NoAutoClean r hs)
+    (bj id : Nat) (x : Int) (hh : HeldAt r.arena bj id x) : HeldAt (submitAll r hs).arena bj id x := by
+  induction hs generalizing r with
+  | nil => exact hh
+  | cons y ys ih =>
+    obtain ⟨h1, h2⟩ := hq
+    simp only [submitAll, List.foldl_cons]
+    exact ih _ h2 (heldAt_processHeader r y.1 y.2 h1 bj id x hh)
+
 /-! ### the reported tip is a tracked branch -/
 
 theorem longestValid_processHeader (r : Repo) (h : Hdr) (ok : Bool) (hs : StreamWF r) (hlv : r.longest < r.arena.length)
